@@ -1,4 +1,5 @@
 import XfemmVerif.Lemmas.ConstrainedSystems
+import XfemmVerif.Lemmas.CSparseLemmas
 /-!
 # C09 — linear solvers return the solution of the system they were given
 
@@ -9,6 +10,12 @@ Property theorems about `Model/Sparse.lean` (the statement-by-statement model of
 entry set/get/add is exact and symmetric; accumulation by `AddTo` is insertion-order independent;
 `SetValue`, `Periodicity`, `AntiPeriodicity` yield exactly the correspondingly constrained system;
 the CG recurrence residual is the true residual.
+
+*The complex solver* (`Model/CSparse.lean`, the model of `cspars.cpp` without Newton matrices, tied by the `csparse`
+correspondence harness): `Cx K` with the operators of `CComplex` — the C++ product and the scaled division that branches on
+`fabs(re) > fabs(im)` — is a field for every ordered field `K` (`Lemmas/ComplexField.lean`), the mixed complex / real operators the
+solver uses are field operations, so its `Periodicity` / `AntiPeriodicity` ARE the generic ones and its `SetValue` differs only in the
+rows it scans; the constrained-system theorems are proved for it below, with the scan window of `cspars.cpp`.
 
 *Not proved (runtime part, labelled partial):* termination and attained accuracy of PCG / PBCG in
 floating point — observed on every run by the harness against an exact rational dense solve.
@@ -204,6 +211,73 @@ theorem cg_residual_invariant [Field α] {n : ℕ} (A : ℕ → ℕ → α) (b V
     (hR : ∀ k < n, R k = b k - mulVec n A V k) :
     ∀ k < n, (R k - del * mulVec n A P k) = b k - mulVec n A (fun l => V l + del * P l) k :=
   cg_residual_step A b V R P del hR
+
+/-! ## the complex solver (`cspars.cpp`, no Newton matrices) -/
+section Complex
+open XfemmVerif XfemmVerif.Cx
+variable {K : Type} [Field K] [LinearOrder K] [IsStrictOrderedRing K] [AbsGt K] [LawfulAbsGt K]
+
+/-- **`CComplex` division is division**: the scaled quotient, in either branch, times the divisor is the dividend -/
+theorem complex_division_exact (x z : Cx K) (hz : z ≠ 0) : x / z * z = x := Cx.div_mul_cancel' x z hz
+
+/-- the reciprocal used by every complex division, in both branches of `fabs(re) > fabs(im)` -/
+theorem complex_inverse_exact (z : Cx K) (hz : z ≠ 0) : z * Cx.inv z = ⟨1, 0⟩ := Cx.mul_inv_cancel' z hz
+
+/-- complex `SetValue(i,x)`: for a non-zero diagonal and non-zeros of column `i` confined to the rows `cspars.cpp` scans —
+    the band `[i-bdw, min(i+bdw, NumNodes))` and every row from `NumNodes` on (the circuit rows) — `y` solves the modified
+    system iff `y i = x` and every other original equation holds. -/
+theorem complex_setValue_solves_constrained (numNodes : Nat) (M : CSparse.CLinProb K) (hM : WF M) (i : Nat)
+    (hi : i < M.n) (hnn : numNodes ≤ M.n) (x : Cx K) (hd : get M i i ≠ 0)
+    (hband : ∀ k, k < M.n → get M k i ≠ 0 →
+      (M.bdw = 0 ∨ (i - M.bdw ≤ k ∧ (k < i + M.bdw ∨ numNodes ≤ k)))) (y : ℕ → Cx K) :
+    Solves M.n (get (CSparse.setValue numNodes M i x)) (getB (CSparse.setValue numNodes M i x)) y ↔
+      (y i = x ∧ ∀ k < M.n, k ≠ i → mulVec M.n (get M) y k = getB M k) := by
+  have hv := setValue_view_rows M hM i hi x (CSparse.setValueRows M.n M.bdw numNodes i)
+    (CSparse.setValueRows_nodup _ _ _ _) (CSparse.setValueRows_lt _ _ _ _)
+    (fun k hk hne => (CSparse.mem_setValueRows M.n M.bdw numNodes i k hk hnn).2 (hband k hk hne))
+  have hsv : CSparse.setValue numNodes M i x =
+      setB ((CSparse.setValueRows M.n M.bdw numNodes i).foldl (setValueRow i x) M) i
+        (get ((CSparse.setValueRows M.n M.bdw numNodes i).foldl (setValueRow i x) M) i i * x) := by
+    unfold CSparse.setValue; rw [CSparse.setValueRow_eq]
+  rw [hsv]
+  obtain ⟨_, _, hg, hb⟩ := hv
+  rw [← setValue_abstract (get M) (getB M) y hi x hd]
+  unfold Solves
+  constructor <;> intro h k hk
+  · have e : mulVec M.n (setA (get M) i) y k = mulVec M.n (get (setB ((CSparse.setValueRows M.n M.bdw numNodes i).foldl
+        (setValueRow i x) M) i (get ((CSparse.setValueRows M.n M.bdw numNodes i).foldl (setValueRow i x) M) i i * x))) y k :=
+      (mulVec_congr y hk (fun a b ha hb' => hg a b ha hb')).symm
+    rw [e]; have := h k hk; rw [hb k hk] at this; exact this
+  · have e : mulVec M.n (get (setB ((CSparse.setValueRows M.n M.bdw numNodes i).foldl
+        (setValueRow i x) M) i (get ((CSparse.setValueRows M.n M.bdw numNodes i).foldl (setValueRow i x) M) i i * x))) y k =
+        mulVec M.n (setA (get M) i) y k :=
+      mulVec_congr y hk (fun a b ha hb' => hg a b ha hb')
+    rw [e, hb k hk]; exact h k hk
+
+/-- complex `Periodicity(i,j)` yields exactly the periodically constrained system -/
+theorem complex_periodicity_solves_constrained (M : CSparse.CLinProb K) (hM : WF M)
+    (i j : Nat) (hij : i ≠ j) (hi : i < M.n) (hj : j < M.n) (y : ℕ → Cx K) (hy : y i = y j) :
+    Solves M.n (get (CSparse.periodicity M i j)) (getB (CSparse.periodicity M i j)) y ↔
+      ((∀ k < M.n, k ≠ i → k ≠ j → mulVec M.n (get M) y k = getB M k) ∧
+        mulVec M.n (get M) y i + mulVec M.n (get M) y j = getB M i + getB M j) := by
+  rw [CSparse.periodicity_eq]
+  exact periodicity_solves_constrained M hM i j hij hi hj y hy
+
+/-- complex `AntiPeriodicity(i,j)` yields exactly the antiperiodically constrained system -/
+theorem complex_antiPeriodicity_solves_constrained (M : CSparse.CLinProb K) (hM : WF M)
+    (i j : Nat) (hij : i ≠ j) (hi : i < M.n) (hj : j < M.n) (y : ℕ → Cx K) (hy : y i = - y j) :
+    Solves M.n (get (CSparse.antiPeriodicity M i j)) (getB (CSparse.antiPeriodicity M i j)) y ↔
+      ((∀ k < M.n, k ≠ i → k ≠ j → mulVec M.n (get M) y k = getB M k) ∧
+        mulVec M.n (get M) y i - mulVec M.n (get M) y j = getB M i - getB M j) := by
+  rw [CSparse.antiPeriodicity_eq]
+  exact antiPeriodicity_solves_constrained M hM i j hij hi hj y hy
+
+/-- the exact instance the correspondence harness runs (`xfemm_model csparse rat`) meets the hypotheses of this section -/
+example : LawfulAbsGt Rat := inferInstance
+example : ((⟨3, 4⟩ : Cx Rat) / ⟨1, -2⟩) * ⟨1, -2⟩ = ⟨3, 4⟩ := by decide +kernel
+example : ((⟨3, 4⟩ : Cx Rat) / ⟨5, 2⟩) * ⟨5, 2⟩ = ⟨3, 4⟩ := by decide +kernel
+
+end Complex
 
 /-! ## non-vacuity: concrete instances meeting the hypotheses -/
 
